@@ -405,6 +405,25 @@ theorem alignment_scale_base_witness :
     genBiases ⟨false, 1, 16⟩ [⟨0, 8, 16⟩] =
       .ok [.w0 .scaleRegion 0, .w1 .scaleBase 8 0, .w1 .scaleLength 16 0] := rfl
 
+/-- Pooling OFM scale: accepted ⇒ the scale lies in [0, 2^32), is written unchanged and reads back exactly; a wider
+    scale is rejected, never truncated.  (Before the repair of `generate_ofm_scaling_for_pooling` the 36-bit scale
+    45992645995 of a 3×8 average pool was emitted as `mask32 45992645995 = 3042973035`.) -/
+theorem pooling_scale_fits (v : Option (Int × Int)) (ws : List RegWrite) (h : poolScaleWrite v = .ok ws) :
+    ∃ s sh, v = some (s, sh) ∧ ws = [.w1 .ofmScale s sh] ∧ ((mask32 s : Nat) : Int) = s := by
+  unfold poolScaleWrite at h
+  cases v with
+  | none => simp at h
+  | some p =>
+    obtain ⟨s, sh⟩ := p
+    simp only at h
+    by_cases hr : 0 ≤ s ∧ s < 4294967296
+    · simp only [hr, and_self, if_true, Except.ok.injEq] at h
+      exact ⟨s, sh, rfl, h.symm, (field_roundtrip_payload32 s).mpr hr⟩
+    · simp [hr] at h
+
+theorem pooling_scale_rejected : poolScaleWrite (some (45992645995, 36)) = .error .vela ∧ mask32 45992645995 = 3042973035 :=
+  ⟨rfl, by decide⟩
+
 /-! ## 5. one stop, waits before the operation they guard -/
 
 /-- **Skeleton of every generated stream.**  For every architecture and accepted operation list, the
